@@ -185,6 +185,31 @@ func firstStatus(out string) string {
 func runSolvers(query string, secs int, wantAll bool, only []string) SolverResult {
 	os.MkdirAll(workDir, 0o755)
 	h := sha1.Sum([]byte(query))
+	// GOVC_CACHE=<dir> (seed / false-alarm regression runs only, never set by the registered commands): definitive answers
+	// are remembered by the hash of the query text, so the eighteen checks run on one changed tree do not solve the
+	// obligations they share eighteen times
+	if cdir := os.Getenv("GOVC_CACHE"); cdir != "" && !wantAll {
+		cf := filepath.Join(cdir, fmt.Sprintf("%x", h[:12]))
+		if b, err := os.ReadFile(cf); err == nil {
+			st := strings.TrimSpace(string(b))
+			if st == "unsat" || st == "sat" {
+				return SolverResult{Status: st, Solver: "cache", Secs: 0.001, All: map[string]string{}}
+			}
+		}
+		defer func() {
+			_ = cf
+		}()
+		res := runSolversUncached(query, h, secs, wantAll, only)
+		if res.Status == "unsat" || res.Status == "sat" {
+			os.MkdirAll(cdir, 0o755)
+			os.WriteFile(cf, []byte(res.Status), 0o644)
+		}
+		return res
+	}
+	return runSolversUncached(query, h, secs, wantAll, only)
+}
+
+func runSolversUncached(query string, h [20]byte, secs int, wantAll bool, only []string) SolverResult {
 	file := filepath.Join(workDir, fmt.Sprintf("q_%x_%d_%d.smt2", h[:8], os.Getpid(), atomic.AddInt64(&queryCounter, 1)))
 	if err := os.WriteFile(file, []byte(query), 0o644); err != nil {
 		return SolverResult{Status: "error", Raw: err.Error()}
